@@ -4,9 +4,9 @@ import (
 	"fmt"
 	"go/ast"
 	"go/constant"
-	"golibcheck/internal/paths"
 	"go/token"
 	"go/types"
+	"golibcheck/internal/paths"
 	"math"
 	"os"
 	"sort"
@@ -182,6 +182,7 @@ func (e *env) sig(m *Matcher) string {
 // Matcher decides one pair.
 type Matcher struct {
 	X        *Extractor
+	loopPos  token.Pos // position of the reader loop whose count is being tied (for definitions in force there)
 	Res      *Result
 	seen     map[string]bool
 	failSeen map[string]bool
@@ -1313,6 +1314,15 @@ func (m *Matcher) readerKey(fr *frame, e ast.Expr) interface{} {
 					e = n // x := make(T, n); for range x
 					continue
 				}
+			} else if d := fr.ctx.defBefore(obj, m.loopPos); d != nil {
+				// several definitions (var items []T; if … { items = make([]T, n); for range items }):
+				// the one in force at the loop
+				if dc, isCall := stripConv(fr.ctx, d).(*ast.CallExpr); isCall {
+					if n := makeArg(fr.ctx, dc); n != nil {
+						e = n
+						continue
+					}
+				}
 			}
 			// a parameter of an inlined helper stands for the caller's argument
 			if a, ok := fr.args[obj]; ok && fr.parent != nil {
@@ -1842,12 +1852,14 @@ func (m *Matcher) checkCountLink(st state, wl, rl *Loop, wfr, rfr *frame) {
 	if cv, ok := st.e.wcount[wk]; ok {
 		prefer = cv
 	}
+	m.loopPos = rl.Pos
 	switch {
 	case rl.Bound != nil:
 		rkey = m.readerKeySt(st, rfr, rl.Bound, prefer)
 	case rl.Range != nil:
 		rkey = m.readerKeySt(st, rfr, rl.Range, prefer)
 	}
+	m.loopPos = token.NoPos
 	if wk == "" {
 		m.fail("countlink", wl, rl, wfr, rfr, "cannot name the repetition count of the writer's loop")
 		return
